@@ -663,7 +663,7 @@ impl CodegenContext {
                                         name,
                                         val
                                     );
-                                    opts.initial_pc = val.into()
+                                    opts.initial_pc = extractor.check_address("start", val)?.into()
                                 }
                                 Ok(None) => {
                                     log::trace!(
@@ -686,7 +686,10 @@ impl CodegenContext {
                             }
                             opts.bank = extractor.try_get_identifier(self, "bank")?;
                             match extractor.try_get_i64(self, "pc")? {
-                                Some(target) => opts.target_address = target.into(),
+                                Some(target) => {
+                                    opts.target_address =
+                                        extractor.check_address("pc", target)?.into()
+                                }
                                 None => opts.target_address = opts.initial_pc,
                             }
 
